@@ -212,7 +212,8 @@ class Ed25519Key(PKey):
             verifying_key = self._verifying_key
         try:
             verifying_key.verify(data, msg.get_binary())
-        except nacl.exceptions.BadSignatureError:
+        except (nacl.exceptions.BadSignatureError, ValueError):
+            # ValueError: the signature is not exactly 64 bytes long
             return False
         else:
             return True
